@@ -22,7 +22,6 @@
 
 from serde import serde, strict, field
 from beartype.typing import Optional, List, Dict, Any
-import math
 
 from .metadata import MetaData
 
@@ -73,8 +72,10 @@ class Enum:
         m = self.max()
         if m == 1 or m == 0:
             return 1
+        elif m < 0:
+            raise ValueError(f"Enum {self.name} has no non-negative value")
         else:
-            return math.floor(math.log2(m) + 1)
+            return m.bit_length()
 
     def max(self) -> int:
         """Get max enum value."""
